@@ -158,6 +158,29 @@ func c10Check(r *ev.Run, alphabet []streamFrame, stats map[string]int64) func(ru
 				return
 			}
 		}
+		// a frame that a parser goroutine took from the queue and parsed is the consumer's (the
+		// consumer of this harness never stops receiving): only frames still queued when the parsers
+		// were told to stop may stay behind
+		for pi, pf := range run.parsed {
+			if sc.ShutAt >= 0 {
+				break // a local shutdown ends the consumer's interest; only the failure clause is checked
+			}
+			isRejected, delivered := false, false
+			for fi := range run.frames {
+				if bytes.Equal(run.frames[fi], pf) && rejected[fi] {
+					isRejected = true
+				}
+			}
+			for _, d := range run.got {
+				if d.enc != nil && bytes.Equal(d.enc, pf) {
+					delivered = true
+				}
+			}
+			if !isRejected && !delivered {
+				bad("parsed-frame-not-delivered", fmt.Sprintf("frame number %d handed to the parser (%d bytes, %x...) was parsed but never reached the consumer after the connection failed", pi, len(pf), head(pf, 12)))
+				return
+			}
+		}
 		stats["undelivered-after-failure"] += int64(complete - nrej - (len(run.got) - nils))
 		r.Outcome(fmt.Sprintf("failure:delivered-%d-of-%d-complete", len(run.got)-nils, complete-nrej))
 	}
